@@ -50,7 +50,10 @@ def lineage_partition(tracks):
 
 
 # C06
-def lookups(tracks, T: int):
+def lookups(tracks, T: int, queries: bool = True):
+    """queries=False: only the read-only comparison of the two lookup tables with a scan
+    (the query battery calls get_track_neighbors, which may re-order or re-build internal
+    state and thereby repair what it is about to judge)."""
     out = []
     g = tracks.graph
     times, _ = graph_view(tracks)
@@ -71,10 +74,14 @@ def lookups(tracks, T: int):
     ncmp = 0
     ids = sorted(k for k in ref_t if k is not None)
     unused = (max(ids) if ids else 0) + 7
+    if not queries:
+        ids, unused_l = [], []
+    else:
+        unused_l = [unused]
     # 'track present at time t' is asked for every (track, t) BEFORE any neighbour query:
     # get_track_neighbors sorts the per-track list in place, which would hide an answer that
     # depends on the order in which the list happens to be
-    for tid in ids + [unused]:
+    for tid in ids + unused_l:
         members = ref_t.get(tid, [])
         for t in range(-1, T + 1):
             exp_has = any(times[n] == t for n in members)
@@ -83,7 +90,7 @@ def lookups(tracks, T: int):
             if bool(got_has) != exp_has:
                 out.append(("has-track", f"has_track_id_at_time({tid},{t}) = {got_has}, "
                             f"scan {exp_has} (asked before any neighbour query)"))
-    for tid in ids + [unused]:
+    for tid in ids + unused_l:
         members = sorted(ref_t.get(tid, []), key=lambda n: times[n])
         for t in range(-1, T + 1):
             before = [n for n in members if times[n] < t]
